@@ -1098,6 +1098,18 @@ class ImplEnv(ImplViz):
             return "raise"
         return "ok"
 
+    def cmd_eswap(self, ts):
+        """the environment's reward function replaced by one built the ordinary way"""
+        cls = {"makespan_reward": MakespanReward, "idle_reward": IdleTimeReward}.get(ts[0])
+        if cls is None:
+            return "bad-op"
+        try:
+            obs = cls(self.env.dispatcher)
+        except Exception:  # pylint: disable=broad-except
+            return "raise"
+        self.env.reward_function = obs
+        return "ok"
+
     def cmd_estep(self, ts):
         try:
             res = self.env.step((int(ts[0]), int(ts[1])))
